@@ -10,6 +10,7 @@ Oracle : the same operation on the cell-list model (Python list indexing / slici
 import itertools
 
 from mc import cells as C
+from mc import repeat
 from mc.runner import Acc, Report
 
 LEVEL = "model_checking"
@@ -116,9 +117,9 @@ def shard_exotic(args):
     at / next to a run boundary, the ends, or their negative twins; +, * and join with themselves."""
     tier, seed, idx = args
     acc = Acc(seed=seed)
-    specs = C.exotic_specs() + C.huge_specs()
+    specs = C.exotic_specs() + C.huge_specs() + C.scale_specs(tier == "thorough")
     nsmall = len(C.exotic_specs())
-    for si in range(idx, len(specs), 16):
+    for si in range(idx, len(specs), 48):
         spec = specs[si]
         f = C.build(spec)
         fc = C.spec_cells(spec)
@@ -328,9 +329,10 @@ def shard_join(args):
 
 def run(ctx):
     rep = Report()
+    repeat.run_into(ctx, rep, "C06")
     for d in ctx.pmap(shard_index, [(ctx.tier, ctx.seed, i) for i in range(NSHARDS)]):
         rep.merge(d, "index_slice_mul")
-    for d in ctx.pmap(shard_exotic, [(ctx.tier, ctx.seed, i) for i in range(16)]):
+    for d in ctx.pmap(shard_exotic, [(ctx.tier, ctx.seed, i) for i in range(48)]):
         rep.merge(d, "long_and_exotic_values")
     for d in ctx.pmap(shard_measured_first, [(ctx.tier, ctx.seed, i) for i in range(4)]):
         rep.merge(d, "measured_operands")
